@@ -693,8 +693,9 @@ type mediaSection struct {
 	data            bool
 	sctpInit        []byte
 	matchExtensions map[string]int
-	// offeredPayloadTypes are the formats of the remote media section when this media section answers it.
-	offeredPayloadTypes map[PayloadType]bool
+	// offeredPayloadTypes are the formats of the remote media section when this media section answers it,
+	// each with the codec ("name/clockrate", lower case) its rtpmap gives it; empty without an rtpmap.
+	offeredPayloadTypes map[PayloadType]string
 	rids                []*simulcastRid
 	// rejected is the remote media section that is answered with a rejected
 	// media section because no transceiver can be associated with it.
@@ -702,23 +703,42 @@ type mediaSection struct {
 }
 
 // payloadTypesFromMediaDescription returns the payload types a media section lists in its m= line.
-func payloadTypesFromMediaDescription(media *sdp.MediaDescription) map[PayloadType]bool {
-	payloadTypes := map[PayloadType]bool{}
+func payloadTypesFromMediaDescription(media *sdp.MediaDescription) map[PayloadType]string {
+	payloadTypes := map[PayloadType]string{}
 	for _, format := range media.MediaName.Formats {
 		if payloadType, err := strconv.ParseUint(format, 10, 8); err == nil {
-			payloadTypes[PayloadType(payloadType)] = true
+			payloadTypes[PayloadType(payloadType)] = ""
+		}
+	}
+	for _, attribute := range media.Attributes {
+		if attribute.Key != "rtpmap" {
+			continue
+		}
+		format, encoding, _ := strings.Cut(attribute.Value, " ")
+		payloadType, err := strconv.ParseUint(format, 10, 8)
+		if _, listed := payloadTypes[PayloadType(payloadType)]; err != nil || !listed {
+			continue
+		}
+		// "name/clockrate[/channels]"
+		if parts := strings.Split(strings.TrimSpace(encoding), "/"); len(parts) >= 2 {
+			payloadTypes[PayloadType(payloadType)] = strings.ToLower(parts[0] + "/" + parts[1])
 		}
 	}
 
 	return payloadTypes
 }
 
-// codecsWithPayloadTypes returns the codecs whose payload type is in payloadTypes,
-// without the RTX codecs that lose their primary codec that way.
-func codecsWithPayloadTypes(codecs []RTPCodecParameters, payloadTypes map[PayloadType]bool) []RTPCodecParameters {
+// codecsWithPayloadTypes returns the codecs whose payload type is in payloadTypes and names the
+// same codec there, without the RTX codecs that lose their primary codec that way.
+func codecsWithPayloadTypes(codecs []RTPCodecParameters, payloadTypes map[PayloadType]string) []RTPCodecParameters {
 	filtered := make([]RTPCodecParameters, 0, len(codecs))
 	for _, codec := range codecs {
-		if payloadTypes[codec.PayloadType] {
+		offered, listed := payloadTypes[codec.PayloadType]
+		if !listed {
+			continue
+		}
+		_, name, _ := strings.Cut(codec.MimeType, "/")
+		if offered == "" || offered == strings.ToLower(name)+"/"+strconv.FormatUint(uint64(codec.ClockRate), 10) {
 			filtered = append(filtered, codec)
 		}
 	}
